@@ -102,6 +102,10 @@ def free_run(drv, plan, env_extra=None):
         open(os.path.join(d, "plan"), "w").write("\n".join(lines) + "\n")
         td = os.path.join(d, "ovni")
         env = {"OVNI_TRACEDIR": td, "TSAN_OPTIONS": "halt_on_error=0 exitcode=0"}
+        if env_extra:
+            env.update(env_extra)
+            if "OVNI_TMPDIR" in env_extra:
+                env["OVNI_TMPDIR"] = os.path.join(d, "tmp")
         rc, out, err = core.run([drv, "-free", os.path.join(d, "plan"), os.path.join(d, "log")],
                                 env=env, cwd=d, timeout=120)
         errtxt = ""
@@ -178,7 +182,9 @@ def main(pid, tier):
         sel = [p for p in plans if sum(1 for pr in p["progs"] if "thread_init" in pr) >= 2]
         rng.shuffle(sel)
         sel = sel[:(150 if tier == "quick" else 3000)]
-        fr = core.pmap(lambda p: free_run(tdrv, p), sel, workers=8)
+        # every other run relocates the streams through OVNI_TMPDIR (threads then copy files in thread_free)
+        fr = core.pmap(lambda kp: free_run(tdrv, kp[1], {"OVNI_TMPDIR": "1"} if kp[0] % 2 else None),
+                       list(enumerate(sel)), workers=8)
         races = 0
         for p, x in zip(sel, fr):
             ck.case("free:" + json.dumps(p["progs"]), nontrivial=True)
